@@ -124,6 +124,7 @@ class Kernel(object):
         self.event_hooks = []
         self.post_hooks = []
         self.counters = {}
+        self.kind_counts = {}
         self.active = True
         self.main = None
         self._next_pid = 100
@@ -327,6 +328,10 @@ class Kernel(object):
         if not cur.proc.alive:
             raise SimKilled()
         self.seq += 1
+        kc = self.kind_counts
+        kc[kind] = kc.get(kind, 0) + 1
+        if kind == "creat" and detail.endswith(".run"):
+            self.counters["sort_pool_run_files"] = self.counters.get("sort_pool_run_files", 0) + 1
         line = "%d|%d|%s|%s\n" % (self.seq, cur.id, kind, detail)
         self.digest.update(line.encode("utf-8", "backslashreplace"))
         if self.keep_log:
